@@ -834,8 +834,8 @@ def run_concurrent(run: lib.Run, prefix, scale: int = 1) -> None:
 # ----------------------------------------------------------------------------- verdict
 
 
-def spec_verdict(maxsize: int, prefix, ops: list) -> dict:
-    obs = run_impl(maxsize, ops)
+def spec_verdict(maxsize: int, prefix, ops: list, s=1) -> dict:
+    obs = run_impl(maxsize, ops, s)
     if not well_formed(obs):
         i = next(i for i, o in enumerate(obs) if not well_formed([o]))
         return {"ok": False, "first_bad": i, "clauses": ["result"], "bad": [[i, ["result"]]]}
@@ -847,19 +847,20 @@ def shrink(case: dict) -> dict:
     if "ops" not in case:
         return case
     visible = bool(VISIBLE & set(case["spec"]["clauses"]))
+    s = 0.5 if "halved" in str(case.get("label", "")) else 1
 
     def fails(xs):
         if not xs:
             return False
-        v = spec_verdict(case["maxsize"], case["prefix"], xs)
+        v = spec_verdict(case["maxsize"], case["prefix"], xs, s)
         if v["ok"]:
             return False
         return bool(VISIBLE & set(pick_bad(v)[1])) if visible else True
     ops = lib.shrink_list(case["ops"], fails, budget=150)
-    v = spec_verdict(case["maxsize"], case["prefix"], ops)
+    v = spec_verdict(case["maxsize"], case["prefix"], ops, s)
     i, cl = pick_bad(v)
     ops = ops[:i + 1]
-    obs = run_impl(case["maxsize"], ops)
+    obs = run_impl(case["maxsize"], ops, s)
     model = proto.run_driver([cmd_ops(case["maxsize"], case["prefix"], ops)])[0]["model"]
     return {**case, "ops": ops, "impl": obs, "model": model,
             "spec": {"ok": False, "first_bad": v["first_bad"], "reported": i, "clauses": cl}}
